@@ -178,6 +178,26 @@ def _integer_like(fn, name):
     return None
 
 
+def _optional_index_names(repo):
+    """Names of None-default parameters that are used as an index / count somewhere in the package (0 is a legitimate value), closed under same-name keyword forwarding."""
+    cached = getattr(repo, "_opt_index_names", None)
+    if cached is not None:
+        return cached
+    S = set()
+    for f in repo.all_fns():
+        for p, d in f.param_defaults().items():
+            if isinstance(d, ast.Constant) and d.value is None and _integer_like(f, p):
+                S.add(p)
+    for _ in range(3):
+        for f in repo.all_fns():
+            for c in [x for x in f.own_nodes() if isinstance(x, ast.Call)]:
+                for kw in c.keywords:
+                    if kw.arg in S and isinstance(kw.value, ast.Name) and kw.value.id in f.params:
+                        S.add(kw.value.id)
+    repo._opt_index_names = S
+    return S
+
+
 def G2_presence_tests(repo, clause, scope=ALL_LIB, min_params=0):
     obs = []
     fns = _scope_fns(repo, scope)
@@ -216,6 +236,38 @@ def G2_presence_tests(repo, clause, scope=ALL_LIB, min_params=0):
                               "every test of it is an identity test against None" if not hits else
                               "but `%s` uses its TRUTH VALUE: the legitimate value 0 (atom index 0, count 0) is treated as 'nothing found'" % ast.unparse(hits[0] if isinstance(hits[0], ast.expr) else hits[0].test)[:80]),
                           slot="none-default-local:%s" % v, positive=True))
+        # (a'') the same test taken indirectly: a collection of optional indices filtered by the truth value of its members (`{k: v for k, v in hints.items() if v}`)
+        S = _optional_index_names(repo)
+        for comp in [x for x in fn.own_nodes() if isinstance(x, (ast.ListComp, ast.DictComp, ast.SetComp, ast.GeneratorExp))]:
+            for g in comp.generators:
+                tvars = {y.id for y in ast.walk(g.target) if isinstance(y, ast.Name)}
+                for c in g.ifs:
+                    t = c
+                    while isinstance(t, ast.UnaryOp) and isinstance(t.op, ast.Not):
+                        t = t.operand
+                    if not (isinstance(t, ast.Name) and t.id in tvars):
+                        continue
+                    src = g.iter
+                    if isinstance(src, ast.Call) and isinstance(src.func, ast.Attribute) and src.func.attr in ("items", "values") and not src.args:
+                        src = src.func.value
+                    try:
+                        lit = expand(fn, src)
+                    except Exception:
+                        lit = src
+                    members = []
+                    if isinstance(lit, ast.Dict):
+                        members = [v for v in lit.values] + [ast.Name(id=k.value, ctx=ast.Load()) for k in lit.keys if isinstance(k, ast.Constant) and isinstance(k.value, str)]
+                    elif isinstance(lit, ast.Call) and call_name(lit) == "dict":
+                        members = [kw.value for kw in lit.keywords] + [ast.Name(id=kw.arg, ctx=ast.Load()) for kw in lit.keywords if kw.arg]
+                    elif isinstance(lit, (ast.List, ast.Tuple, ast.Set)):
+                        members = list(lit.elts)
+                    opt = sorted({m.id for m in members if isinstance(m, ast.Name) and m.id in S})
+                    if opt:
+                        n_params += 1
+                        obs.append(Ob("G2", clause, fn, comp, False,
+                                      "`%s` in %s keeps the members of `%s` by their TRUTH VALUE; %s are optional indices (None = not given), so the legitimate index 0 is dropped like a missing one "
+                                      "(`is not None` is meant)" % (ast.unparse(comp)[:70], fn.qualname, ast.unparse(src)[:30], ", ".join(opt)),
+                                      slot="none-default-filter:%s" % ",".join(opt), positive="robust"))
         # (b) any()/all() over a selection of data; (c) signed sums as presence tests
         for n in fn.own_nodes():
             if isinstance(n, ast.Call) and isinstance(n.func, ast.Name) and n.func.id in ("any", "all") and len(n.args) == 1:
@@ -688,6 +740,104 @@ def G12_set_order(repo, clause, scope=ALL_LIB):
     return obs
 
 
+
+def _table_provenance(repo, fn, expr, depth=0, seen=None):
+    """Which literal tables (module-level dict literals with a numeric side) does `expr` list *in table order*, looking through locals with one
+    definition, module-level assignments and imports; and does a sort occur anywhere on the way.  Returns ({table: {key: number}}, sorted_seen)."""
+    tabs, sorted_seen = {}, False
+    seen = seen if seen is not None else set()
+    if depth > 6 or expr is None:
+        return tabs, sorted_seen
+    try:
+        ex = expand(fn, expr) if fn is not None else expr
+    except Exception:
+        ex = expr
+    for y in ast.walk(ex):
+        if isinstance(y, ast.Call) and (call_name(y) in ("sorted", "sort", "argsort", "lexsort", "unique", "nsmallest", "nlargest", "SortedList")):
+            sorted_seen = True
+    for y in ast.walk(ex):
+        if not isinstance(y, ast.Name) or y.id in seen:
+            continue
+        seen.add(y.id)
+        mods = [fn.module] if fn is not None else []
+        cand = []
+        for m in mods:
+            v = m.top_assign(y.id)
+            if v is not None:
+                cand.append((m, v))
+            elif y.id in m.imports:
+                src, attr = m.imports[y.id]
+                sm = repo.modules.get(src)
+                if sm is not None and attr:
+                    v2 = sm.top_assign(attr)
+                    if v2 is not None:
+                        cand.append((sm, v2))
+            else:
+                for star in m.star_imports:
+                    sm = repo.modules.get(star)
+                    if sm is not None and sm.top_assign(y.id) is not None:
+                        cand.append((sm, sm.top_assign(y.id)))
+        for m, v in cand:
+            if isinstance(v, ast.Dict):
+                try:
+                    d = ast.literal_eval(v)
+                except Exception:
+                    continue
+                if d and all(isinstance(x, (int, float)) and not isinstance(x, bool) for x in d.values()):
+                    tabs[y.id] = d
+                elif d and all(isinstance(k, (int, float)) and not isinstance(k, bool) for k in d):
+                    tabs[y.id] = {k: k for k in d}
+            else:
+                # module-level statements that sort the name in place
+                for st in m.tree.body:
+                    if isinstance(st, ast.Expr) and isinstance(st.value, ast.Call) and isinstance(st.value.func, ast.Attribute) and st.value.func.attr == "sort" \
+                            and isinstance(st.value.func.value, ast.Name) and st.value.func.value.id == y.id:
+                        sorted_seen = True
+                t2, s2 = _table_provenance_module(repo, m, v, depth + 1, seen)
+                tabs.update(t2)
+                sorted_seen = sorted_seen or s2
+    return tabs, sorted_seen
+
+
+def _table_provenance_module(repo, m, expr, depth, seen):
+    tabs, sorted_seen = {}, False
+    if depth > 6:
+        return tabs, sorted_seen
+    for y in ast.walk(expr):
+        if isinstance(y, ast.Call) and (call_name(y) in ("sorted", "sort", "argsort", "lexsort", "unique", "nsmallest", "nlargest")):
+            sorted_seen = True
+    for y in ast.walk(expr):
+        if not isinstance(y, ast.Name) or y.id in seen:
+            continue
+        seen.add(y.id)
+        v, dm = m.top_assign(y.id), m
+        if v is None and y.id in m.imports:
+            src, attr = m.imports[y.id]
+            sm = repo.modules.get(src)
+            if sm is not None and attr:
+                v, dm = sm.top_assign(attr), sm
+        if v is None:
+            continue
+        if isinstance(v, ast.Dict):
+            try:
+                d = ast.literal_eval(v)
+            except Exception:
+                continue
+            if d and all(isinstance(x, (int, float)) and not isinstance(x, bool) for x in d.values()):
+                tabs[y.id] = d
+            elif d and all(isinstance(k, (int, float)) and not isinstance(k, bool) for k in d):
+                tabs[y.id] = {k: k for k in d}
+        else:
+            for st in dm.tree.body:
+                if isinstance(st, ast.Expr) and isinstance(st.value, ast.Call) and isinstance(st.value.func, ast.Attribute) and st.value.func.attr == "sort" \
+                        and isinstance(st.value.func.value, ast.Name) and st.value.func.value.id == y.id:
+                    sorted_seen = True
+            t2, s2 = _table_provenance_module(repo, dm, v, depth + 1, seen)
+            tabs.update(t2)
+            sorted_seen = sorted_seen or s2
+    return tabs, sorted_seen
+
+
 def G7_api_contract_pitfalls(repo, clause, scope=ALL_LIB):
     """Contracts of library calls and small arithmetic idioms that are wrong only at a boundary:
     (a) the insertion point returned by bisect_left / bisect_right / np.searchsorted may equal len(list): using it as an index without a bound check
@@ -717,7 +867,47 @@ def G7_api_contract_pitfalls(repo, clause, scope=ALL_LIB):
                           "property %s %s" % (fn.qualname, "is recomputed from its source arrays on every access" if not stores else
                                               "STORES `%s` on the object: the cached value survives in-place edits of the arrays it was computed from (retyping an atom, then searching again, still sees the old elements)" % ast.unparse(stores[0])[:50]),
                           construct=None if stores else "@property def %s" % fn.name, slot="property-cache:%s" % fn.qualname, positive=True))
+        # (c') a query method that memoises its result on the object (an attribute the constructor does not know, written under a "not computed yet" test on itself)
+        if fn.cls is not None and fn.name != "__init__" and not any((dotted(d) or "") == "property" for d in fn.node.decorator_list):
+            init = repo.maybe_fn("%s.__init__" % fn.cls) if isinstance(fn.cls, str) else None
+            init_attrs = set()
+            if init is not None:
+                for x in init.own_nodes():
+                    for t in (x.targets if isinstance(x, ast.Assign) else ([x.target] if isinstance(x, (ast.AugAssign, ast.AnnAssign)) else [])):
+                        for y in ast.walk(t):
+                            if isinstance(y, ast.Attribute) and isinstance(y.value, ast.Name) and y.value.id == "self":
+                                init_attrs.add(y.attr)
+            if init is not None:
+                for st in [x for x in fn.own_nodes() if isinstance(x, ast.Assign) and len(x.targets) == 1 and isinstance(x.targets[0], ast.Attribute)
+                           and isinstance(x.targets[0].value, ast.Name) and x.targets[0].value.id == "self" and x.targets[0].attr not in init_attrs]:
+                    attr = st.targets[0].attr
+                    guarded = any(attr in ast.unparse(t) for t, pol, k in norm_guards(fn, st))
+                    returned = any(isinstance(r_, ast.Return) and r_.value is not None and attr in ast.unparse(r_.value) for r_ in fn.own_nodes())
+                    sources = sorted({y.attr for y in ast.walk(st.value) if isinstance(y, ast.Attribute) and isinstance(y.value, ast.Name) and y.value.id == "self" and y.attr != attr})
+                    reset_elsewhere = any(g is not fn and g.cls == fn.cls and any(
+                        isinstance(x, ast.Assign) and any(isinstance(t, ast.Attribute) and t.attr == attr and isinstance(t.value, ast.Name) and t.value.id == "self" for t in x.targets)
+                        for x in g.own_nodes()) for g in repo.all_fns())
+                    if guarded and returned and sources and not reset_elsewhere:
+                        counts["cache"] += 1
+                        obs.append(Ob("G7", clause, fn, st, False,
+                                      "%s memoises its answer in `self.%s` (computed from self.%s the first time only) and nothing ever resets it: after `obj.%s = ...` or an in-place edit the method "
+                                      "keeps returning the answer for the OLD value - and copy() carries the stale memo along" % (fn.qualname, attr, ", self.".join(sources), sources[0]),
+                                      slot="method-memo:%s" % fn.qualname, positive="robust"))
         for n in fn.own_nodes():
+            # (e) binary search needs a sorted sequence: a sequence taken in table order from a literal table whose numbers are not monotone
+            if isinstance(n, ast.Call) and call_name(n) in ("bisect_left", "bisect_right", "bisect", "searchsorted", "insort", "insort_left", "insort_right") and n.args:
+                seq_ = n.func.value if (call_name(n) == "searchsorted" and isinstance(n.func, ast.Attribute) and dotted(n.func.value) not in ("np", "numpy")) else n.args[0]
+                tabs, sorted_seen = _table_provenance(repo, fn, seq_)
+                for tname, nums in sorted(tabs.items()):
+                    inv = [k_ for k_, (a_, b_) in zip(list(nums)[1:], zip(list(nums.values()), list(nums.values())[1:])) if a_ > b_]
+                    if sorted_seen:
+                        continue
+                    counts["bisect"] += 1
+                    obs.append(Ob("G7", clause, fn, n, not inv,
+                                  "`%s` is a binary search over `%s`, which lists the numbers of the literal table %s in TABLE ORDER%s" % (
+                                      ast.unparse(n)[:50], ast.unparse(seq_)[:30], tname,
+                                      " (monotone: fine)" if not inv else "; the table is NOT monotone (%d entries smaller than their predecessor, e.g. %s), so the search lands in the wrong neighbourhood for values near those entries" % (len(inv), ", ".join(map(str, inv[:6])))),
+                                  slot="bisect-sorted:%s" % fn.qualname, positive="robust"))
             # (a) insertion points used as indices
             if isinstance(n, ast.Assign) and len(n.targets) == 1 and isinstance(n.targets[0], ast.Name) and isinstance(n.value, ast.Call) \
                     and call_name(n.value) in ("bisect_left", "bisect_right", "bisect", "searchsorted"):
@@ -1818,6 +2008,111 @@ def G28_alias_sibling_update(repo, clause, scope=ALL_LIB):
                                   slot="alias-sibling:%s:%s" % (fn.qualname, x), positive="robust"))
     obs.append(Ob("G28", clause, fns[0], fns[0].node, True, "%d functions in scope, %d in-place / re-binding sibling pairs after an attribute store examined" % (len(fns), n),
                   construct="alias update inventory", slot="inventory"))
+    return obs
+
+
+def G29_parallel_filter_in_loop(repo, clause, scope=ALL_LIB):
+    """`A = [a for j, a in enumerate(A) if P(B[j])]` (or `for a, b in zip(A, B)`) filters A through the list B that runs PARALLEL to it.  Inside a loop that does this more
+    than once, B has to be filtered in the same iteration: if only A shrinks, from the second round on `B[j]` no longer belongs to `A[j]` - the wrong items are removed
+    and others survive."""
+    obs = []
+    fns = _scope_fns(repo, scope)
+    n = 0
+
+    def key(e):
+        return ast.unparse(e)
+
+    for fn in fns:
+        for lp in [x for x in fn.own_nodes() if isinstance(x, (ast.For, ast.While))]:
+            inside = [x for x in ast.walk(lp) if x is not lp]
+            body_nodes = [x for st in lp.body for x in ast.walk(st)]
+            for st in [x for x in body_nodes if isinstance(x, ast.Assign) and len(x.targets) == 1 and isinstance(x.targets[0], (ast.Name, ast.Attribute))]:
+                comp = st.value
+                if isinstance(comp, ast.Call) and call_name(comp) in ("list", "tuple", "array") and comp.args:
+                    comp = comp.args[0]
+                if not isinstance(comp, (ast.ListComp, ast.GeneratorExp)) or len(comp.generators) != 1:
+                    continue
+                g = comp.generators[0]
+                a_key = key(st.targets[0])
+                partner = None
+                if isinstance(g.iter, ast.Call) and call_name(g.iter) == "enumerate" and g.iter.args and key(g.iter.args[0]) == a_key \
+                        and isinstance(g.target, ast.Tuple) and len(g.target.elts) == 2 and isinstance(g.target.elts[0], ast.Name):
+                    j = g.target.elts[0].id
+                    for c in g.ifs:
+                        for y in ast.walk(c):
+                            if isinstance(y, ast.Subscript) and isinstance(y.slice, ast.Name) and y.slice.id == j and isinstance(y.value, (ast.Name, ast.Attribute)) and key(y.value) != a_key:
+                                partner = y.value
+                elif isinstance(g.iter, ast.Call) and call_name(g.iter) == "zip" and len(g.iter.args) == 2 and isinstance(g.target, ast.Tuple) and len(g.target.elts) == 2 and g.ifs:
+                    ks = [key(a) for a in g.iter.args]
+                    if a_key in ks and ks[0] != ks[1]:
+                        other = g.iter.args[1 - ks.index(a_key)]
+                        ov = g.target.elts[1 - ks.index(a_key)]
+                        if isinstance(other, (ast.Name, ast.Attribute)) and isinstance(ov, ast.Name) and any(isinstance(y, ast.Name) and y.id == ov.id for c in g.ifs for y in ast.walk(c)):
+                            partner = other
+                if partner is None:
+                    continue
+                # is the element kept as it is (a filter), not transformed?
+                n += 1
+                pk = key(partner)
+                updated = False
+                for x in body_nodes:
+                    if isinstance(x, ast.Assign) and any(key(t) == pk for t in x.targets):
+                        updated = True
+                    elif isinstance(x, ast.AugAssign) and key(x.target) == pk:
+                        updated = True
+                    elif isinstance(x, ast.Delete) and any(isinstance(t, ast.Subscript) and key(t.value) == pk for t in x.targets):
+                        updated = True
+                    elif isinstance(x, ast.Call) and isinstance(x.func, ast.Attribute) and x.func.attr in ("pop", "remove", "clear", "__delitem__") and key(x.func.value) == pk:
+                        updated = True
+                # a loop that provably runs its body once (it ends in an unconditional break / return) does not matter
+                last = lp.body[-1]
+                once = isinstance(last, (ast.Break, ast.Return, ast.Raise))
+                obs.append(Ob("G29", clause, fn, st, updated or once,
+                              "`%s` filters %s through the parallel list %s inside a loop; %s" % (
+                                  ast.unparse(st)[:80], a_key, pk,
+                                  "the partner is filtered in the same loop" if updated else ("the loop body runs once" if once else
+                                  "%s is NOT updated anywhere in the loop body: after the first removal the two lists have different lengths and `%s[j]` no longer belongs to `%s[j]` - "
+                                  "from the second removal on the wrong items are dropped" % (pk, pk, a_key))),
+                              slot="parallel-filter:%s:%s" % (fn.qualname, a_key), positive="robust"))
+    obs.append(Ob("G29", clause, fns[0], fns[0].node, True, "%d functions in scope, %d filters through a parallel list inside loops inspected" % (len(fns), n), construct="parallel filter inventory", slot="inventory"))
+    return obs
+
+
+def G30_nonzero_rows_with_multiplicity(repo, clause, scope=ALL_LIB):
+    """`rows, _ = np.nonzero(D < cutoff)` on a 2-D comparison lists one entry per (row, column) HIT.  Dropping the column index and turning the row indices into items
+    ("the rows that have a hit") keeps the multiplicity: a row with two hits - one atom within the cutoff of two periodic images of another - is reported twice.
+    Needed: `np.any(mask, axis=1)` / `np.unique(rows)` / a set."""
+    obs = []
+    fns = _scope_fns(repo, scope)
+    n = 0
+    for fn in fns:
+        for st in [x for x in fn.own_nodes() if isinstance(x, ast.Assign) and len(x.targets) == 1 and isinstance(x.targets[0], ast.Tuple) and len(x.targets[0].elts) == 2
+                   and isinstance(x.value, ast.Call) and call_name(x.value) in ("nonzero", "where") and len(x.value.args) == 1 and all(isinstance(t, ast.Name) for t in x.targets[0].elts)]:
+            try:
+                m = expand(fn, x_arg) if (x_arg := st.value.args[0]) is not None else None
+            except Exception:
+                m = st.value.args[0]
+            if not (isinstance(m, ast.Compare) and len(m.ops) == 1 and isinstance(m.ops[0], (ast.Lt, ast.LtE, ast.Gt, ast.GtE))):
+                continue
+            names = [t.id for t in st.targets[0].elts]
+            reads = {nm: [y for y in fn.own_nodes() if isinstance(y, ast.Name) and y.id == nm and isinstance(y.ctx, ast.Load)] for nm in names}
+            used = [nm for nm in names if reads[nm]]
+            if len(used) != 1:
+                continue
+            u = used[0]
+            n += 1
+            dedup = False
+            for y in reads[u]:
+                par = fn.parents.get(y)
+                if isinstance(par, ast.Call) and call_name(par) in ("unique", "set", "frozenset", "fromkeys", "bincount", "isin", "in1d"):
+                    dedup = True
+            obs.append(Ob("G30", clause, fn, st, dedup,
+                          "`%s` in %s keeps only the %s indices of the hits of the 2-D test `%s`%s" % (
+                              ast.unparse(st)[:70], fn.qualname, "row" if u == names[0] else "column", ast.unparse(m)[:50],
+                              " and removes repeats" if dedup else ": one entry per HIT, so a row with two hits (the same partner reached through two periodic images, two entries within the tolerance) "
+                              "appears twice in what is built from it - `np.any(mask, axis=...)` or `np.unique` is meant"),
+                          slot="nonzero-multiplicity:%s" % fn.qualname, positive="robust"))
+    obs.append(Ob("G30", clause, fns[0], fns[0].node, True, "%d functions in scope, %d index lists taken from one axis of a 2-D hit matrix inspected" % (len(fns), n), construct="nonzero inventory", slot="inventory"))
     return obs
 
 
